@@ -771,6 +771,9 @@ def contains(I, ctx, container, item):
             pass
         # symbolic elements (kept apart in the model) or a symbolic item: membership is an equality with some element
         return contains(I, ctx, ListVal(list(container.items.values())), item)
+    if isinstance(container, FmtStr):
+        from . import fmtterms
+        return fmtterms.str_method(I, ctx, container, "__contains__").fn(ctx, item)
     if isinstance(container, str):
         it = enum_str(item)
         if isinstance(it, str):
